@@ -1816,3 +1816,246 @@ class C20(Prop):
 
 
 PROPS["C20"] = C20()
+
+
+# ----------------------------------------------------------------------------- C11
+
+class C11(Prop):
+    rule = ("every built-in x receivers (empty, ASCII, multi-byte, boundary integers, nested arrays/objects, data-supplied) "
+            "x argument tuples: all (len, start, end) with len <= 4 and bounds in -6..6 for slice/at/truncate, all wrong-kind "
+            "tuples of arity <= 2, random tuples beyond; multi-step purity scenarios (the receiver and the arguments are "
+            "read again after one or two calls on the same stored value; results of earlier calls are read again after "
+            "later calls); UTF-8 validity of every string result. Expected results come from the extracted contract "
+            "specification (Spec/BuiltinSpec.v) run by the extracted template semantics. shuffle is checked as a "
+            "permutation by multiset; upper/lower/capitalize on non-ASCII text are outside the modelled contract.")
+    explanation = ("Theorems: contract lemmas on the specification (reverse is an involution and preserves length, slice "
+                   "never exceeds its bounds, append/prepend extend, results of functions defined through decode/encode are "
+                   "valid UTF-8); the model's built-ins equal the specification on the proved functions. Correspondence: "
+                   "render model = implementation. Oracle: implementation output = specification output.")
+    assumptions = ["case mapping is specified for ASCII only", "float printing is specified on the dyadic class"]
+
+    STRS = ["", "abc", "héllo", "日本語テキスト", " pad ", "a,b,,c", "12", "-7", "x", "ab", "ÀÉ"]
+    ARRS = ["(arr)", "(arr (int 1))", "(arr (int 1) (int 2))", "(arr (int 1) (int 2) (int 3))", "(arr (int 1) (int 2) (int 3) (int 4))",
+            "(arr (str %s 1) (str %s 1))" % (hx("a"), hx("b")), "(arr (arr (int 1)) (arr))", "(arr (obj (k (int 1))) (nil))", "(var arr3)",
+            "(var strs)", "(var empty)"]
+
+    def sval(self, s):
+        return "(str %s 1)" % hx(s)
+
+    def ival(self, i):
+        return "(int %d)" % i if i >= 0 else "(neg (int %d))" % -i
+
+    def generate(self, rng, tier):
+        data = hx(cond_data())
+        cases = []   # (kind, tree)
+        rngb = range(-6, 7)
+        # exhaustive small numeric domains
+        for n in range(0, 5):
+            arr = "(arr %s)" % " ".join("(int %d)" % (k + 1) for k in range(n)) if n else "(arr)"
+            s = "héöx"[:n]
+            for a in rngb:
+                cases.append(("xexpr", "(call %s slice %s)" % (arr, self.ival(a))))
+                cases.append(("xexpr", "(call %s at %s)" % (self.sval(s), self.ival(a))))
+                cases.append(("xexpr", "(call %s truncate %s)" % (self.sval(s), self.ival(a))))
+                cases.append(("xexpr", "(call %s truncate %s %s)" % (self.sval(s), self.ival(a), self.sval("~"))))
+                cases.append(("xexpr", "(call %s repeat %s)" % (self.sval(s), self.ival(a))))
+                cases.append(("xexpr", "(call %s decimal %s %s)" % (self.sval("12"), self.sval("."), self.ival(a))))
+                for b in rngb:
+                    cases.append(("xexpr", "(call (call %s slice %s %s) join)" % (arr, self.ival(a), self.ival(b))))
+        # every function on every receiver with no / simple arguments
+        for s in self.STRS:
+            r = self.sval(s)
+            for fn in ["len", "reverse", "first", "last", "capitalize", "upper", "lower", "trim", "trimLeft", "trimRight", "split", "decimal", "raw"]:
+                cases.append(("xexpr", "(call %s %s)" % (r, fn)))
+            for fn, a in [("contains", self.sval("b")), ("contains", self.sval("")), ("split", self.sval(",")), ("split", self.sval("")),
+                          ("trim", self.sval("a ")), ("trimLeft", self.sval("x")), ("at", "(int 1)"), ("repeat", "(int 2)"),
+                          ("truncate", "(int 2)"), ("decimal", self.sval(","))]:
+                cases.append(("xexpr", "(call (call %s %s %s) len)" % (r, fn, a) if fn == "split" else "(call %s %s %s)" % (r, fn, a)))
+        for a in self.ARRS:
+            for fn in ["len", "reverse", "join", "rand"]:
+                cases.append(("xexpr", "(call %s %s)" % (a, fn)))
+            for fn, x in [("append", "(int 9)"), ("prepend", "(int 9)"), ("contains", "(int 2)"), ("contains", "(arr (int 1))"),
+                          ("contains", "(obj (k (int 1)))"), ("contains", "(nil)"), ("contains", self.sval("a")), ("join", self.sval("-"))]:
+                cases.append(("xexpr", "(call %s %s %s)" % (a, fn, x)))
+        for z in [0, 7, -7, 12345, 9223372036854775807]:
+            r = self.ival(z)
+            for fn in ["abs", "str", "float", "len", "decimal"]:
+                cases.append(("xexpr", "(call %s %s)" % ("(var small)" if z == -7 and fn == "abs" and rng.random() < 0.5 else r, fn)))
+        for m, k in [(0, 1), (15, 1), (25, 1), (35, 1), (5, 1), (125, 2), (275, 2), (1000, 1), (49, 1), (51, 1)]:
+            for neg in (False, True):
+                r = "(float %d %d)" % (m, k)
+                r = "(neg %s)" % r if neg else r
+                for fn in ["abs", "int", "ceil", "floor", "round", "str"]:
+                    cases.append(("xexpr", "(call %s %s)" % (r, fn)))
+        for b in ["(bool 1)", "(bool 0)", "(var dt)", "(var df)"]:
+            cases += [("xexpr", "(call %s binary)" % b), ("xexpr", "(call %s then (int 1))" % b), ("xexpr", "(call %s then (int 1) %s)" % (b, self.sval("n")))]
+        # wrong-kind arguments
+        kinds = ["(int 1)", "(float 15 1)", self.sval("s"), "(bool 1)", "(nil)", "(arr (int 1))", "(obj (k (int 1)))"]
+        fns = [("(str %s 1)" % hx("abc"), f) for f in ["split", "trim", "contains", "truncate", "decimal", "at", "repeat"]] + \
+              [("(arr (int 1) (int 2))", f) for f in ["join", "slice", "contains", "append", "prepend"]] + [("(bool 1)", "then")]
+        for r, fn in fns:
+            cases.append(("xexpr", "(call %s %s)" % (r, fn)))
+            for a in kinds:
+                cases.append(("xexpr", "(call %s %s %s)" % (r, fn, a)))
+                for b in (kinds if tier == "thorough" else rng.sample(kinds, 2)):
+                    cases.append(("xexpr", "(call %s %s %s %s)" % (r, fn, a, b)))
+        # purity: multi-step scenarios on stored values
+        n = {"quick": 1500, "thorough": 20000, "search": 4000}[tier]
+        afn = [("append", ["(int 9)"]), ("append", ["(int 8)", "(int 7)"]), ("prepend", ["(int 0)"]), ("reverse", []), ("slice", ["(int 1)"]),
+               ("slice", ["(int 0)", "(int 2)"]), ("slice", ["(int 0)", "(int 1)"]), ("join", []), ("contains", ["(int 2)"]), ("len", [])]
+        sfn = [("reverse", []), ("upper", []), ("trim", []), ("truncate", ["(int 1)"]), ("repeat", ["(int 2)"]), ("split", []), ("capitalize", [])]
+        for _ in range(n):
+            if rng.random() < 0.7:
+                base = rng.choice(self.ARRS[:5] + ["(var arr3)", "(arr (int 1) (int 2) (int 3) (int 4) (int 5))",
+                                                   "(call (arr (int 1) (int 2) (int 3) (int 4)) slice (int 0) (int 2))"])
+                fl = afn
+            else:
+                base = self.sval(rng.choice(self.STRS))
+                fl = sfn
+            nodes = ["(assign a %s)" % base]
+            names = []
+            for j in range(rng.choice([1, 2, 2, 3])):
+                fn, args = rng.choice(fl)
+                src = rng.choice(["a"] + [nm for nm in names if rng.random() < 0.3])
+                nm = "r%d" % j
+                nodes.append("(assign %s (call (var %s) %s %s))" % (nm, src, fn, " ".join(args)))
+                names.append(nm)
+            for nm in names + ["a"]:
+                nodes += ["(print (var %s))" % nm, T("|")]
+            cases.append(("xtpl", B(nodes)))
+        lines = []
+        for i, (kind, t) in enumerate(cases):
+            if kind == "xexpr":
+                lines.append("\t".join(["C11:%d" % i, "xexpr", hx(t), "-", "-", data]))
+            else:
+                lines.append("\t".join(["C11:%d" % i, "xtpl", hx(t), data]))
+        return lines, {"exhaustive": False, "distribution": {"single_calls": sum(1 for k, _ in cases if k == "xexpr"), "purity_scenarios": n},
+                       "exhaustive_part": "all (len, start, end) with len <= 4, bounds -6..6 for slice; all (len, i) for at/truncate/repeat/decimal"}
+
+    def post_check(self, results):
+        bad = []
+        for r in results:
+            if r["impl"].startswith("RENDER\tOK\t"):
+                h = r["impl"].split("\t")[2]
+                if h != "-":
+                    import binascii
+                    try:
+                        binascii.unhexlify(h).decode("utf-8")
+                    except UnicodeDecodeError:
+                        bad.append((r, "valid UTF-8 input gave invalid UTF-8 output"))
+        return bad
+
+
+PROPS["C11"] = C11()
+
+
+# ----------------------------------------------------------------------------- C12
+
+class C12(Prop):
+    rule = ("Go data values generated by type-directed recursion to depth 4: bool, string, int/int8..int64, uint/uint8..uint64, "
+            "float32/64, nil, pointers (incl. nil pointers and pointers to pointers), []any and typed slices, string-keyed maps "
+            "(any and typed), structs built at run time with exported and unexported fields, and unsupported kinds (chan, "
+            "func, complex, array) at every depth; for each value every access path (field, field with lower-cased first "
+            "letter, key through dot and index syntax, position, through pointers) is rendered and compared with the literal "
+            "the specification derives from the Go value; unexported fields must be unreachable; unsupported kinds anywhere "
+            "must make the call fail; the harness deep-snapshots the data before and after every render.")
+    explanation = ("Theorems: the data conversion model maps every supported value to the value of the same shape and "
+                   "returns unsupported for a value that contains an unsupported kind at any depth (induction on the Go "
+                   "value). Correspondence: render model = implementation. Oracle: path access = literal; the data is "
+                   "unchanged after rendering (DATA-MUTATED flag of the harness).")
+    assumptions = ["caller data immutability is observed by the harness, not proved"]
+
+    def gen(self, rng, d):
+        """returns (data s-expr, list of (access path suffix, expected text or None for 'not printable scalar'), supported?)"""
+        k = rng.random()
+        if d <= 0 or k < 0.35:
+            c = rng.random()
+            if c < 0.25:
+                w = rng.choice(["int", "int8", "int16", "int32", "int64", "uint", "uint8", "uint16", "uint32", "uint64"])
+                v = rng.choice([0, 1, 7, 100, 127] + ([-1, -128] if not w.startswith("u") else [255] if w != "uint8" else [200]))
+                if w == "int8":
+                    v = max(-128, min(127, v))
+                return "(%s %d)" % (w, v), [("", str(v))], True
+            if c < 0.4:
+                v = rng.choice([0.5, 1.5, -2.25, 3.0, 100.125])
+                w = rng.choice(["f64", "f32"])
+                txt = ("%.1f" % v) if v == int(v) else repr(v)
+                return "(%s %s)" % (w, f64bits(v)), [("", txt)], True
+            if c < 0.6:
+                s = rng.choice(["", "plain", "<b>&", "héllo", "with \"quote\""])
+                return "(str %s)" % hx(s), [("", s)], True
+            if c < 0.7:
+                b = rng.choice([0, 1])
+                return "(bool %d)" % b, [("", str(b))], True
+            if c < 0.8:
+                return rng.choice(["(nil)", "(nilptr int)", "(nilptr str)"]), [("", "")], True
+            if c < 0.9:
+                return rng.choice(["(chan)", "(func)", "(complex)", "(array2)"]), [], False
+            return "(ptr (int 5))", [("", "5")], True
+        if k < 0.5:
+            inner, paths, ok = self.gen(rng, d - 1)
+            return "(ptr %s)" % inner, paths, ok
+        if k < 0.7:
+            n = rng.choice([0, 1, 2, 3])
+            items = [self.gen(rng, d - 1) for _ in range(n)]
+            paths = []
+            for i, (_, ps, _) in enumerate(items):
+                paths += [("[%d]%s" % (i, p), t) for p, t in ps]
+            paths.append(("[%d]" % n, ""))      # past the end: nil
+            return "(slice %s)" % " ".join(x for x, _, _ in items), paths, all(ok for _, _, ok in items)
+        if k < 0.85:
+            keys = rng.sample(["k", "name", "Age", "x1", "é"], rng.choice([1, 2, 3]))
+            items = [(key, self.gen(rng, d - 1)) for key in keys]
+            paths = []
+            for key, (_, ps, _) in items:
+                for p, t in ps:
+                    paths.append(("[\"%s\"]%s" % (key, p), t))
+                    if key.isascii() and key.isidentifier():
+                        paths.append((".%s%s" % (key, p), t))
+            return "(map %s)" % " ".join("(%s %s)" % (hx(key), x) for key, (x, _, _) in items), paths, all(ok for _, (_, _, ok) in items)
+        fields = rng.sample(["Name", "Age", "Items", "X", "ID", "hidden", "secret2"], rng.choice([1, 2, 3, 4]))
+        items = []
+        for f in fields:
+            if f[0].islower():
+                items.append((f, ("(int 99)", [], True)))
+            else:
+                items.append((f, self.gen(rng, d - 1)))
+        paths = []
+        for f, (_, ps, _) in items:
+            if f[0].islower():
+                paths.append((".%s" % f, None))          # must be unreachable: an error
+                continue
+            for p, t in ps:
+                paths.append((".%s%s" % (f, p), t))
+                paths.append((".%s%s" % (f[0].lower() + f[1:], p), t))
+                paths.append(("[\"%s\"]%s" % (f, p), t))
+        ok = all(ok for f, (_, _, ok) in items if not f[0].islower())
+        return "(struct %s)" % " ".join("(%s %s)" % (f, x) for f, (x, _, _) in items), paths, ok
+
+    def generate(self, rng, tier):
+        lines = []
+        n = {"quick": 1500, "thorough": 25000, "search": 4000}[tier]
+        idx = 0
+        for _ in range(n):
+            dsx, paths, ok = self.gen(rng, rng.choice([1, 2, 3, 4]))
+            data = "((%s %s) (%s (int 1)))" % (hx("v"), dsx, hx("other"))
+            if not ok:
+                lines.append(tree_case("C12:u%d" % idx, [], [op_evalstr("static {{ other }}", data)], ["err:0", "msgsub:0:" + hx("unsupported"), "nopanic"]))
+                idx += 1
+                continue
+            rng.shuffle(paths)
+            for p, t in paths[:6]:
+                src = "{{ v%s }}" % p
+                if t is None:
+                    cons = ["err:0", "nopanic"]
+                else:
+                    cons = ["out:0:" + hx(t), "nopanic"]
+                lines.append(tree_case("C12:%d" % idx, [], [op_evalstr(src, data)], cons))
+                idx += 1
+        return lines, {"exhaustive": False, "distribution": {"values": n, "path_cases": idx}}
+
+    def post_check(self, results):
+        return [(r, "rendering modified the caller's data") for r in results if "DATA-MUTATED" in r["impl"]]
+
+
+PROPS["C12"] = C12()
